@@ -222,20 +222,47 @@ pub fn set_foreach(
     let callback = args.first().cloned().unwrap_or(JsValue::Undefined);
     let this_arg = args.get(1).cloned().unwrap_or(JsValue::Undefined);
 
-    // Collect entries first to avoid borrow issues
-    let entries: Vec<JsValue>;
-    {
-        let set = set_obj.borrow();
-        if let ExoticObject::Set { entries: ref e } = set.exotic {
-            entries = e.iter().map(|k| k.0.clone()).collect();
-        } else {
-            return Err(JsError::type_error(
-                "Set.prototype.forEach called on non-Set",
-            ));
-        }
+    if !matches!(set_obj.borrow().exotic, ExoticObject::Set { .. }) {
+        return Err(JsError::type_error(
+            "Set.prototype.forEach called on non-Set",
+        ));
     }
 
-    for value in entries {
+    // Iterate the live set: a value deleted before it is reached is not visited, one
+    // added during the iteration is (see Map.prototype.forEach).
+    let guard = interp.heap.create_guard();
+    let mut seen: crate::prelude::FxHashSet<JsMapKey> = Default::default();
+    let mut pos = 0usize;
+    loop {
+        let next = {
+            let set = set_obj.borrow();
+            let ExoticObject::Set { ref entries } = set.exotic else {
+                break;
+            };
+            let at_pos = entries
+                .get_index(pos)
+                .filter(|k| !seen.contains(*k))
+                .map(|k| (pos, k.clone()));
+            let before_ok =
+                pos == 0 || entries.get_index(pos - 1).is_some_and(|k| seen.contains(k));
+            match at_pos {
+                Some(found) if before_ok => Some(found),
+                _ => entries
+                    .iter()
+                    .enumerate()
+                    .find(|(_, k)| !seen.contains(*k))
+                    .map(|(i, k)| (i, k.clone())),
+            }
+        };
+        let Some((index, key)) = next else {
+            break;
+        };
+        pos = index + 1;
+        if let JsValue::Object(o) = &key.0 {
+            guard.guard(o.cheap_clone());
+        }
+        seen.insert(key.clone());
+        let value = key.0;
         // Set.forEach passes (value, value, set) - value is passed twice
         interp.call_function(
             callback.clone(),
